@@ -323,3 +323,36 @@ class Check:
         if self.machinery_errors:
             return 2
         return 0
+
+
+_SYM_CACHE = {}
+
+
+def symmetry_elements(chk, N, C):
+    """All elements of the dihedral group on a uniform N-bin direction grid (Symmetry.tla), each with
+    its bin permutation; TLC checks bijectivity, the homomorphism law and agreement with the angle
+    map on every element."""
+    if (N, C) in _SYM_CACHE:
+        return _SYM_CACHE[(N, C)]
+    d = scratch_dir("symcfg")
+    cfg = os.path.join(d, "Symmetry_%d_%d.cfg" % (N, C))
+    with open(cfg, "w") as fp:
+        fp.write("SPECIFICATION Spec\nCONSTANTS\n  N = %d\n  C = %d\nINVARIANT Bijective\nINVARIANT Homomorphism\n"
+                 "INVARIANT AngleMapAgrees\nINVARIANT GroupLaws\nINVARIANT Emit\nCHECK_DEADLOCK FALSE\n" % (N, C))
+    r = run_tlc("Symmetry", cfg, workers=1, timeout=900)
+    shutil.rmtree(d, ignore_errors=True)
+    chk.tlc(r, "dihedral group on a uniform grid of %d bins (C=%d): bijective, homomorphism, agrees with the angle map" % (N, C))
+    if r.violated:
+        chk.violation("model:symmetry:%s" % r.violated, "Symmetry.tla violates %s for N=%d" % (r.violated, N), {"tlc": r.out[-1500:]})
+    elif not r.ok:
+        chk.machinery("TLC failed on Symmetry N=%d: %s" % (N, r.error))
+    els, seen = [], set()
+    for p in r.prints:
+        e = json.loads(p)
+        if (e["k"], e["s"]) not in seen:
+            seen.add((e["k"], e["s"]))
+            els.append(e)
+    if len(els) != 2 * N:
+        chk.machinery("Symmetry.tla generated %d elements for N=%d, expected %d" % (len(els), N, 2 * N))
+    _SYM_CACHE[(N, C)] = els
+    return els
